@@ -6,7 +6,7 @@ From V.c07 Require Import C07Model.
 From V.c06 Require Import C06Model C06InitModel C06StructProofs C06CencProofs C06CbcsProofs C06SampleProofs C06InitProofs C06FragModel C06FragProofs.
 From V.c06 Require Import C06SencModel C06SencProofs C06SencAuxProofs C06TrexModel C06TrexProofs C06EntryModel C06EntryProofs.
 From V.c06 Require Import C06SencRepairProofs C06FileCbcsProofs C06TimingModel C06TimingProofs C06SinfModel C06SinfProofs.
-From V.c06 Require Import C06MultiModel C06MultiProofs.
+From V.c06 Require Import C06MultiModel C06MultiProofs C06FixedModel C06FixedProofs.
 
 (* cenc: crypting twice with the same key, IV and sub-sample map restores the sample — for EVERY block function
    E, every map (empty = whole sample, partial last block, clear runs > 65535, even overlapping or wrapping
@@ -551,13 +551,74 @@ Print Assumptions C06_sinf_codec.
    fixed fields, the entry's own child boxes whatever they are - avcC / hvcC / esds, btrt, pasp, unknown boxes, sinf
    boxes of its own -, then the new sinf) is turned by decode + RemoveEncryption + Encode into exactly the bytes of the
    clear entry (size and 4cc included), and the sinf handed to DecryptFragment is the one InitProtect built *)
-Theorem C06_entry_bytes_roundtrip : forall enc_ty ty fixed children sch t,
+Theorem C06_entry_bytes_roundtrip_opaque : forall enc_ty ty fixed children sch t,
   ty < 4294967296 -> sch < 4294967296 -> tenc_wf t = true ->
   forallb wf_box children = true ->
   8 + lenN fixed + lenN (concat children) + 400 < 4294967296 ->
   unprotect_entry_bytes (length fixed) (protect_entry_bytes enc_ty ty fixed children sch t)
   = Ok (entry_bytes ty fixed children, mkSD (Some ty) (Some sch) (Some (Some t))).
 Proof. exact entry_bytes_roundtrip. Qed.
+Print Assumptions C06_entry_bytes_roundtrip_opaque.
+
+(* the fixed fields of the sample entry as TYPED fields (C06FixedModel.v: DecodeVisualSampleEntrySR / EncodeSW,
+   DecodeAudioSampleEntrySR / EncodeSW): data_reference_index, width, height, horizresolution, vertresolution,
+   frame_count, compressor name / data_reference_index, channelcount, samplesize, samplerate are read back exactly as
+   written, for every value within the field widths *)
+Theorem C06_entry_fixed_fields :
+  (forall v, vfixed_wf v = true -> vfixed_decode (vfixed_encode v) = Ok v /\ length (vfixed_encode v) = 78%nat) /\
+  (forall a, afixed_wf a = true -> afixed_decode (afixed_encode a) = a /\ length (afixed_encode a) = 28%nat).
+Proof. exact fixed_fields_codec. Qed.
+Print Assumptions C06_entry_fixed_fields.
+
+(* third-party entries: for ANY 78 / 28 input bytes what the library writes back (reserved / pre_defined bytes zeroed,
+   depth 0x0018, fractional sample rate dropped: this happens on any decode + encode, protected or not) carries the same
+   typed fields, has the right length and is a fixed point of decode + encode *)
+Theorem C06_entry_fixed_stable : forall k fx fx',
+  bytes_ok fx = true -> fixed_reencode k fx = Ok fx' ->
+  fixed_reencode k fx' = Ok fx' /\ length fx' = fixed_len k /\
+  match k with
+  | SVisual => vfixed_decode fx' = vfixed_decode fx
+  | SAudio => afixed_decode fx' = afixed_decode fx
+  | SOtherKind => True
+  end.
+Proof. exact fixed_reencode_stable. Qed.
+Print Assumptions C06_entry_fixed_stable.
+
+(* decode (typed fixed fields, children with 8- or 16-byte headers) + RemoveEncryption + Encode of a protected entry
+   whose sinf stands at ANY position among the children - children BEFORE and AFTER it; InitProtect appends: after =
+   [] -, for ANY fixed bytes fx: the entry comes back under its original 4cc with the re-encoded fixed fields fx' and
+   the children before and after the sinf in place; the sinf handed to DecryptFragment is the one written.  `after`
+   holds no further sinf (RemoveEncryption reads and removes the LAST one) *)
+Theorem C06_entry_typed_roundtrip : forall k ty fx fx' before after sch t,
+  k <> SOtherKind ->
+  ty < 4294967296 -> sch < 4294967296 -> tenc_wf t = true ->
+  length fx = fixed_len k -> fixed_reencode k fx = Ok fx' ->
+  forallb wf_box16 before = true -> forallb wf_box16 after = true -> no_sinf_box after = true ->
+  8 + lenN fx + lenN (concat before) + lenN (concat after) + 400 < 4294967296 ->
+  unprotect_entry_typed k (protect_entry_bytes_at (enc_type k) ty fx before after sch t)
+  = Ok (entry_bytes ty fx' (before ++ after), mkSD (Some ty) (Some sch) (Some (Some t))).
+Proof. exact entry_typed_roundtrip. Qed.
+Print Assumptions C06_entry_typed_roundtrip.
+
+(* "restores the original sample entry type", byte for byte: for an entry as the library writes it (fixed fields fx a
+   fixed point of decode + encode, e.g. vfixed_encode v / afixed_encode a: C06_entry_fixed_fields, C06_entry_fixed_stable)
+   EVERY BYTE of the entry except the size field, the 4cc and the sinf child is identical before and after:
+     protected = size_p ++ encv/enca ++ fx ++ children before ++ sinf ++ children after
+     clear     = size_c ++ ty        ++ fx ++ children before ++         children after *)
+Theorem C06_entry_bytes_roundtrip : forall k ty fx before after sch t,
+  k <> SOtherKind ->
+  ty < 4294967296 -> sch < 4294967296 -> tenc_wf t = true ->
+  length fx = fixed_len k -> fixed_reencode k fx = Ok fx ->
+  forallb wf_box16 before = true -> forallb wf_box16 after = true -> no_sinf_box after = true ->
+  8 + lenN fx + lenN (concat before) + lenN (concat after) + 400 < 4294967296 ->
+  exists clear size_p size_c,
+    unprotect_entry_typed k (protect_entry_bytes_at (enc_type k) ty fx before after sch t)
+    = Ok (clear, mkSD (Some ty) (Some sch) (Some (Some t))) /\
+    protect_entry_bytes_at (enc_type k) ty fx before after sch t
+    = size_p ++ be_bytes4 (enc_type k) ++ fx ++ concat before ++ sinf_encode ty sch t ++ concat after /\
+    clear = size_c ++ be_bytes4 ty ++ fx ++ concat before ++ concat after /\
+    length size_p = 4%nat /\ length size_c = 4%nat.
+Proof. exact entry_bytes_identical. Qed.
 Print Assumptions C06_entry_bytes_roundtrip.
 
 (* ---------------------------------------------------------------- examples *)
@@ -779,3 +840,24 @@ Proof.
   - repeat constructor.
   - vm_compute. repeat split; try reflexivity. discriminate.
 Qed.
+
+(* the hypotheses of C06_entry_bytes_roundtrip / C06_entry_typed_roundtrip are satisfiable: a visual entry with typed
+   fields, an avcC-like child and an unknown child with a 16-byte header BEFORE the sinf, a btrt-like child AFTER it;
+   a third-party entry with arbitrary reserved bytes is normalised once and keeps its typed fields *)
+Example ex_entry_typed :
+  let v := mkVF 1 1920 1080 4718592 4718592 1 [109; 112; 52; 102; 102] in
+  let fx := vfixed_encode v in
+  let large := [0; 0; 0; 1; 76; 82; 71; 69; 0; 0; 0; 0; 0; 0; 0; 19; 7; 7; 7] in
+  let before := [mkbox 1635148611 [1; 100; 0; 31]; large] in
+  let after := [mkbox 1651798644 (repeat 0 12)] in
+  let t := mkTenc 1 1 9 1 0 77 (repeat 5 16) in
+  let dirty := repeat 255 6 ++ skipn 6 (firstn 74 fx) ++ [0; 32; 1; 2] in
+  vfixed_wf v = true /\ tenc_wf t = true /\ fixed_reencode SVisual fx = Ok fx /\ length fx = 78%nat /\
+  forallb wf_box16 before = true /\ forallb wf_box16 after = true /\ no_sinf_box after = true /\
+  wf_box large = false /\
+  unprotect_entry_typed SVisual (protect_entry_bytes_at cc_encv cc_avc1 fx before after cc_cbcs t)
+  = Ok (entry_bytes cc_avc1 fx (before ++ after), mkSD (Some cc_avc1) (Some cc_cbcs) (Some (Some t))) /\
+  dirty <> fx /\ fixed_reencode SVisual dirty = Ok fx /\
+  unprotect_entry_typed SVisual (protect_entry_bytes_at cc_encv cc_avc1 dirty before after cc_cbcs t)
+  = Ok (entry_bytes cc_avc1 fx (before ++ after), mkSD (Some cc_avc1) (Some cc_cbcs) (Some (Some t))).
+Proof. vm_compute. repeat split; try reflexivity; discriminate. Qed.
